@@ -233,6 +233,13 @@ def c05(ctx):
         absorb_bad(ctx, bad3)
         ev2 += ev3
         h2 += h3
+        if d == 0:
+            # "however they were reached": also after hundreds of plies (clocks beyond every threshold), with set-up
+            # clocks and counters -- the key must not depend on any counter
+            bad4, ev4, h4, sk4 = run_traces(ctx, "clock", 4, 2 if quick else 8, 250, label="long%d" % d)
+            absorb_bad(ctx, bad4)
+            ev2 += ev4
+            h2 += h4
         ctx.evaluations += ev + ev2
         ctx.nontrivial += hist + h2
     ctx.extra["table_draws_examined"] = draws
